@@ -1362,9 +1362,9 @@ class World(object):
                     if f.sent:
                         self.viol("C14 %r matches no configured action%s but commands were sent: %r"
                                   % (f.cmd, " (streaming to SD)" if streaming else "", f.sent))
-                    if f.k0 != f.k1:
-                        self.viol("C14 %r matches no configured action%s but changed the filter state"
-                                  % (f.cmd, " (streaming to SD)" if streaming else ""))
+                    # "changes nothing" is judged by behaviour: the reference flag stays as it was, and the C01/C03
+                    # obligations that run alongside expose any effect on later decisions (internal bookkeeping such
+                    # as a count of @-commands seen is the implementation's business)
                 elif f.closing:
                     st.tags.add("disable-mid-episode")
                     if not f.sent:
